@@ -205,7 +205,11 @@ def ws_pattern(pat):
     # the identifier VANY is a wildcard (shortest match, may span lines); a replacement may quote it back as VANY
     # VID is the same for a single identifier (field / variable name)
     parts = ['(.*?)' if t.text == 'VANY' else (r'([A-Za-z_]\w*)' if t.text == 'VID' else re.escape(t.text)) for t in toks]
-    return re.compile(r'\s*'.join(parts), re.S)
+    rx = r'\s*'.join(parts)
+    # a pattern that is one bare identifier (a rename) matches whole identifiers only (`old` does not match inside `threshold`)
+    if len(toks) == 1 and re.fullmatch(r'[A-Za-z_]\w*', toks[0].text) and toks[0].text not in ('VANY', 'VID'):
+        rx = r'(?<![A-Za-z0-9_])' + rx + r'(?![A-Za-z0-9_])'
+    return re.compile(rx, re.S)
 
 
 def _fill(b, m):
